@@ -68,7 +68,7 @@ def gen(rng, i):
         return fp.Case(mb, info, cmds=cmds, data=data, desc=[("requant-chain", cfg["act"]["bits"])])
     if i % 7 == 5:
         # tied constants (shared weights / one bias tensor shared by operators whose inputs have different ranges)
-        mb, info = gm.gen_tied(rng, shared_bias=0.6)
+        mb, info = gm.gen_tied(rng, shared_bias=0.6, extras=False)   # focused: tied weights and shared biases only
         data = gm.random_inputs(mb, rng, n=1, scale=1.0)
         cfg = pl.UNIFORM[rng.choice(["a8w8", "a8sw8t", "a16w8"])]
         cmds = [{"k": "add", "regex": ".*", "operation": "*", "cfg": cfg, "alg": "min_max_uniform_quantize"}]
